@@ -411,6 +411,19 @@ pub fn run(ctx: &mut Ctx) {
             );
             return;
         }
+        // (c): the un-mocked call is part of what the macro asks unimock to generate; for a fn whose type parameter no
+        // argument mentions it has to name that parameter
+        for (id, d) in &out.compile_failed {
+            let i: usize = id[1..].parse().unwrap_or(0);
+            if cases[i].classes.contains(&"fn:type_parameter_in_no_argument") && d.iter().any(|x| ["E0282", "E0283", "E0284"].contains(&x.code.as_str())) {
+                ctx.count_eval();
+                ctx.violation(
+                    &format!("the generated mock wiring of a fn whose type parameter appears in no argument does not compile (the un-mocked call cannot infer it): {} -- in {}", d.first().map(|x| format!("{} {}", x.code, x.message)).unwrap_or_default(), cases[i].summary),
+                    &json!({"engine": "E2", "src": cases[i].src, "summary": cases[i].summary, "expect": "compiles"}),
+                );
+                return;
+            }
+        }
         crate::ev::inconclusive(&format!("{} of {} C11 programs do not compile; first: {}\n{first}", out.compile_failed.len(), cases.len(), cases[i].summary));
     }
 }
